@@ -235,6 +235,17 @@ detect_osxsave(void)
         return (cpuid_1_0.ecx & (1UL << 27));
 }
 
+#ifdef IMB_VERIF
+/* verification hook (off by default): CPU features to hide from detection */
+uint64_t imb_verif_cpu_feature_mask = 0;
+
+IMB_DLL_EXPORT void
+imb_verif_set_cpu_feature_mask(const uint64_t mask)
+{
+        imb_verif_cpu_feature_mask = mask;
+}
+#endif /* IMB_VERIF */
+
 uint64_t
 cpu_feature_detect(void)
 {
@@ -297,6 +308,10 @@ cpu_feature_detect(void)
 #endif
 #ifdef SAFE_PARAM
         features |= IMB_FEATURE_SAFE_PARAM;
+#endif
+#ifdef IMB_VERIF
+        /* verification hook: pretend the CPU lacks the masked features */
+        features &= ~imb_verif_cpu_feature_mask;
 #endif
         return features;
 }
